@@ -57,6 +57,13 @@ fn poll_once<F: Future>(f: Pin<&mut F>) -> Option<F::Output> {
 
 static SEQ: AtomicU64 = AtomicU64::new(0);
 static DONE: std::sync::atomic::AtomicBool = std::sync::atomic::AtomicBool::new(false);
+/// start barrier: every thread spins on it so that all of them are runnable before any operation
+static GO: std::sync::atomic::AtomicBool = std::sync::atomic::AtomicBool::new(false);
+fn wait_go() {
+    while !GO.load(Ordering::SeqCst) {
+        thread::yield_now();
+    }
+}
 fn tick() -> u64 {
     SEQ.fetch_add(1, Ordering::SeqCst) + 1
 }
@@ -89,17 +96,26 @@ fn fail(msg: String, log: &[Ev]) -> ! {
 fn main() {
     let mode: u32 = std::env::args().nth(1).and_then(|s| s.parse().ok()).unwrap_or(0);
     let with_clear = mode % 2 == 1;
+    // modes 4,5: the writers race on the *first registration* of a service while a watcher
+    // subscribes as soon as it can
+    let race = mode >= 4;
+    let svc: &'static str = if race { "b" } else { "a" };
     let (reporter, server) = tonic_health::server::health_reporter();
     let log: Arc<Mutex<Vec<Ev>>> = Arc::new(Mutex::new(vec![]));
-    // service "a" is registered before the threads start so that Watch can subscribe
-    block_on(reporter.set_service_status("a", ServingStatus::Unknown));
-    log.lock().unwrap().push(Ev::Write { inv: 0, ret: 0, val: Some(0) });
+    if race {
+        // not registered at the start
+        log.lock().unwrap().push(Ev::Write { inv: 0, ret: 0, val: None });
+    } else {
+        // registered before the threads start so that Watch can subscribe
+        block_on(reporter.set_service_status(svc, ServingStatus::Unknown));
+        log.lock().unwrap().push(Ev::Write { inv: 0, ret: 0, val: Some(0) });
+    }
 
     // a Check before any concurrency (a later Check must not be answered from stale state)
     {
         let mut c = HealthClient::new(server.clone());
         let inv = tick();
-        let r = block_on(c.check(HealthCheckRequest { service: "a".into() }));
+        let r = block_on(c.check(HealthCheckRequest { service: svc.into() }));
         let ret = tick();
         log.lock().unwrap().push(Ev::Check { inv, ret, got: r.ok().map(|x| x.into_inner().status) });
     }
@@ -108,9 +124,10 @@ fn main() {
     {
         let (r, log) = (reporter.clone(), log.clone());
         hs.push(thread::spawn(move || {
+            wait_go();
             for st in [ServingStatus::Serving, ServingStatus::NotServing] {
                 let inv = tick();
-                block_on(r.set_service_status("a", st));
+                block_on(r.set_service_status(svc, st));
                 let ret = tick();
                 log.lock().unwrap().push(Ev::Write { inv, ret, val: Some(wire(st)) });
             }
@@ -120,26 +137,41 @@ fn main() {
     {
         let (mut r, log) = (reporter.clone(), log.clone());
         hs.push(thread::spawn(move || {
+            wait_go();
             let inv = tick();
-            block_on(r.set_service_status("a", ServingStatus::Serving));
+            block_on(r.set_service_status(svc, ServingStatus::Serving));
             let ret = tick();
             log.lock().unwrap().push(Ev::Write { inv, ret, val: Some(1) });
             if with_clear {
                 let inv = tick();
-                block_on(r.clear_service_status("a"));
+                block_on(r.clear_service_status(svc));
                 let ret = tick();
                 log.lock().unwrap().push(Ev::Write { inv, ret, val: None });
             }
         }));
     }
+    // race mode: two more writers registering the same name for the first time
+    if race {
+        for st in [ServingStatus::Unknown, ServingStatus::NotServing] {
+            let (r, log) = (reporter.clone(), log.clone());
+            hs.push(thread::spawn(move || {
+            wait_go();
+                let inv = tick();
+                block_on(r.set_service_status(svc, st));
+                let ret = tick();
+                log.lock().unwrap().push(Ev::Write { inv, ret, val: Some(wire(st)) });
+            }));
+        }
+    }
     // checker
     {
         let (server, log) = (server.clone(), log.clone());
         hs.push(thread::spawn(move || {
+            wait_go();
             let mut c = HealthClient::new(server);
             for _ in 0..3 {
                 let inv = tick();
-                let r = block_on(c.check(HealthCheckRequest { service: "a".into() }));
+                let r = block_on(c.check(HealthCheckRequest { service: svc.into() }));
                 let ret = tick();
                 let got = match r {
                     Ok(x) => Some(x.into_inner().status),
@@ -158,10 +190,22 @@ fn main() {
     {
         let (server, log) = (server.clone(), log.clone());
         hs.push(thread::spawn(move || {
+            wait_go();
             let mut c = HealthClient::new(server);
-            let inv = tick();
-            let r = block_on(c.watch(HealthCheckRequest { service: "a".into() }));
-            let ret = tick();
+            let mut inv = tick();
+            let mut r = block_on(c.watch(HealthCheckRequest { service: svc.into() }));
+            let mut ret = tick();
+            if race {
+                // not registered yet: try again until one of the racing writers has registered it
+                let mut tries = 0;
+                while r.is_err() && tries < 40 {
+                    thread::yield_now();
+                    inv = tick();
+                    r = block_on(c.watch(HealthCheckRequest { service: svc.into() }));
+                    ret = tick();
+                    tries += 1;
+                }
+            }
             match r {
                 Err(_) => {
                     log.lock().unwrap().push(Ev::Sub { inv, ret, ok: false });
@@ -198,6 +242,7 @@ fn main() {
             }
         }));
     }
+    GO.store(true, Ordering::SeqCst);
     // writers and checker first; then release the watcher with one more write
     let watcher = hs.pop().unwrap();
     for h in hs {
@@ -206,14 +251,14 @@ fn main() {
     DONE.store(true, Ordering::SeqCst);
     if !with_clear {
         let inv = tick();
-        block_on(reporter.set_service_status("a", ServingStatus::NotServing));
+        block_on(reporter.set_service_status(svc, ServingStatus::NotServing));
         let ret = tick();
         log.lock().unwrap().push(Ev::Write { inv, ret, val: Some(2) });
     } else {
         // a clear that is definitely the last write (writer 2's clear may overlap writer 1's sets)
         let mut r = reporter.clone();
         let inv = tick();
-        block_on(r.clear_service_status("a"));
+        block_on(r.clear_service_status(svc));
         let ret = tick();
         log.lock().unwrap().push(Ev::Write { inv, ret, val: None });
     }
@@ -222,7 +267,7 @@ fn main() {
     {
         let mut c = HealthClient::new(server.clone());
         let inv = tick();
-        let r = block_on(c.check(HealthCheckRequest { service: "a".into() }));
+        let r = block_on(c.check(HealthCheckRequest { service: svc.into() }));
         let ret = tick();
         let got = match r {
             Ok(x) => Some(x.into_inner().status),
@@ -293,9 +338,10 @@ fn judge(log: &[Ev], blocked: bool) {
     let cleared = writes.iter().filter(|w| w.2.is_none()).find(|w| w.1 > sinv).copied();
     if !ok {
         // subscription may only be refused if the clear could already have happened
-        match cleared {
-            Some(c) if c.0 < sret => {}
-            _ => fail("watch subscription refused although the service was registered".into(), log),
+        // legitimate exactly when "not registered" was an admissible state of the register between
+        // the subscription's invocation and its return
+        if !admissible(sinv, sret).contains(&None) {
+            fail("watch subscription refused although the service was registered".into(), log);
         }
         return;
     }
